@@ -529,14 +529,21 @@ func c03Coverage(c *Ctx, r *Report, crc *ssa.Function) map[string]bool {
 				continue
 			}
 			if s, ok := fr.sliceOf(ia.X); ok && s.root == data.root {
-				if okc, w := coversAll(fr, ia, s); okc {
+				okc, w := coversAll(fr, ia, s)
+				if okc {
+					// the slice walked must be the whole argument, not a clamped or trimmed view of it
+					st := fr.blockIn[ia.Block().Index]
+					if !(st.entails(atomEQ(s.off, data.off)) && st.entails(atomEQ(s.ln, data.ln))) {
+						okc, w = false, "the loop walks "+describeAV(s)+", which is not provably the whole argument"
+					}
+				}
+				if okc {
 					if r != nil {
 						r.ok("R3.0", id, "every byte data[0..len-1] is read exactly once, in order, by the folding loop", c.pos(ia.Pos()), true)
 					}
 					return fired
-				} else {
-					why = w
 				}
+				why = w
 			}
 		}
 	}
